@@ -96,7 +96,8 @@ def perms : List String → List (List String)
 namespace Index
 
 /-- the answers `detect_fixture_cycles` can give, over all root orders (the driver keeps cases to
-    at most six fixture names; beyond that only the registration order and its reverse are tried).
+    at most six fixture names; beyond that every name is tried as the first root, with the others in
+    registration order and in reverse - an incomplete enumeration, marked as such by the driver).
     The memo (`cycle_cache`) is keyed by the definitions version only. -/
 def cyclesAlternatives (st : Index) : List (List Cycle) × Index :=
   match st.cycleCache with
@@ -106,7 +107,10 @@ def cyclesAlternatives (st : Index) : List (List Cycle) × Index :=
 where
   recompute (st : Index) : List (List Cycle) × Index :=
     let names := namesOf st.defs
-    let orders := if names.length ≤ 6 then perms names else [names, names.reverse]
+    -- beyond six names: every name once as the FIRST root, the others in registration order and in
+    -- reverse (2n orders instead of n!)
+    let orders := if names.length ≤ 6 then perms names
+      else names.flatMap (fun r => [r :: names.filter (· != r), r :: (names.filter (· != r)).reverse])
     let alts := orders.map (computeCycles st.defs)
     (alts, { st with cycleCache := some (st.version, alts), cycleEpoch := st.epoch })
 
